@@ -23,6 +23,7 @@ import Golib.Model.C18Knap
 import Golib.Model.C18Solv
 import Golib.Model.C18Graph
 import Golib.Model.C18GraphApi
+import Golib.Model.C18GraphR
 
 namespace Golib.C18
 open Golib.Proto
@@ -221,6 +222,10 @@ def graphOp (n : Nat) (edges : List (Nat × Nat)) (ts : List String) : Option (O
     match nats? ps with
     | some P =>
       if P.all (· < n) then
+        -- also run the recursion with `R` on its backing array (capacity n, as allocated by
+        -- GetMaximalCliques); `c18_R_alias_safe_top` says the cliques are the same
+        let viaHeap := (bkH nb (fun c => c) (P.length + 2) [List.replicate n 0] ⟨0, 0⟩ P []).map (·.2)
+        if viaHeap ≠ (bkTop nb P).map (·.1) then some (some "model-mismatch") else
         some ((bkTop nb P).map fun (cs, arr) => showCliques cs ++ " arr=" ++ showNats arr)
       else none
     | none => none
@@ -230,6 +235,10 @@ def graphOp (n : Nat) (edges : List (Nat × Nat)) (ts : List String) : Option (O
       match nats? r, nats? p, nats? x with
       | some R, some P, some X =>
         if (R ++ P ++ X).all (· < n) then
+          -- `R` with spare capacity n + 1 behind it, as the harness passes it (`c18_R_alias_safe`)
+          let viaHeap := (bkH nb (fun c => c + 1) (P.length + 1) [R ++ List.replicate (n + 1) 0]
+            ⟨0, R.length⟩ P X).map (·.2)
+          if viaHeap ≠ bk nb (P.length + 1) R P X then some (some "model-mismatch") else
           some ((bk nb (P.length + 1) R P X).map showCliques)
         else none
       | _, _, _ => none
